@@ -191,9 +191,21 @@ def run_case(desc):
                 net_noop = start is not None and bool(miss) and all(
                     S.canon(h.app_models(a, start)) ==
                     S.canon(h.app_models(a, n)) for a, _l in miss)
+                # evidence: every missing label is an evolution whose own
+                # mutations cancel out (the models of its app are the same
+                # before and after the version that introduced it)
+                def _own_noop(a, l):
+                    k = int(l[1:])
+                    v = next((v for v in range(1, n + 1)
+                              if labels_at[a][v] >= k), None)
+                    return v is not None and S.canon(
+                        h.app_models(a, v - 1)) == S.canon(
+                        h.app_models(a, v))
                 items.append({'type': 'LABELS_DIFFER', 'path': name,
                               'kind': name.rstrip('0123456789'),
                               'missing': miss, 'net_noop': net_noop,
+                              'missing_are_noop_evolutions': bool(miss) and
+                              all(_own_noop(a, l) for a, l in miss),
                               'extra': sorted(labels - want_labels)})
             rows_ = proj.evolution_rows(db)
             seen = set()
